@@ -67,14 +67,28 @@ func startServer(app *generator.App) (*server, error) {
 				continue
 			default:
 			}
-			resp, err := s.client.Get(s.base + "/started")
+			// The port was free a moment ago, but sixteen workers pick ports at the same time:
+			// the answering server must be OURS — the index page carries the App's name, which
+			// is a per-case nonce.
+			resp, err := s.client.Get(s.base + "/")
 			if err == nil {
 				body, _ := io.ReadAll(resp.Body)
 				resp.Body.Close()
-				if resp.StatusCode == 200 && bytes.Contains(body, []byte("modelVersion")) {
+				if resp.StatusCode == 200 && bytes.Contains(body, []byte(app.Name)) {
+					select {
+					case err := <-exited:
+						lastErr = fmt.Errorf("App.Run(edit) returned: %v", err)
+						i = 1 << 30
+						continue
+					default:
+					}
 					return s, nil
 				}
-				lastErr = fmt.Errorf("/started answered %d %q", resp.StatusCode, body)
+				lastErr = fmt.Errorf("a server answers on port %s but it is not this case's App (status %d)", port, resp.StatusCode)
+				if resp.StatusCode == 200 {
+					i = 1 << 30 // somebody else's server: take another port
+					continue
+				}
 			} else {
 				lastErr = err
 			}
@@ -305,6 +319,14 @@ func httpOp(s *server, d *graphDesc, lv *live, rec recOp) []recOp {
 					rec.Fail = "unreadable zip archive: " + err.Error()
 				}
 			}
+			if rec.Fail != "" {
+				// ZipEndpoint lets a panicking build escape (net/http recovers it and drops the
+				// connection): one failed operation; the model says where that is legal
+				rec.plan.ZipFail = true
+				rec.Arg = "zip"
+				rec.Out = "no archive: " + rec.Fail
+				return []recOp{rec}
+			}
 			var out []recOp
 			for pi, pr := range d.Producers {
 				x := rec
@@ -327,9 +349,12 @@ func httpOp(s *server, d *graphDesc, lv *live, rec recOp) []recOp {
 		r := s.do("GET", "/producer/value/"+name, nil)
 		rec.Ret = atomic.AddInt64(&clock, 1)
 		rec.Status, rec.Fail = r.status, r.fail
-		if d.Producers[op.Prod].Stl && r.status == 200 {
+		switch {
+		case r.status == 500 && bytes.Contains(r.body, []byte(poisonPanic)):
+			rec.Out = panicOut // the handler recovered the build's panic: this request failed, nothing else
+		case d.Producers[op.Prod].Stl && r.status == 200:
 			rec.Out = decodeSTL(r.body)
-		} else {
+		default:
 			rec.Out = string(r.body)
 		}
 	}
